@@ -397,6 +397,21 @@ ROUND14 = {
            "instantiation.",
     "C20": "Stores of the active flag release and the load in isActive() acquires (or seq_cst).",
 }
+ROUND15 = {
+    "C01": "The list-splitting assign() of every container destination works through every element (pipeline "
+           "obligations shared with C06-R1).",
+    "C04": "strlen( s.c_str()) is modelled as a value in [0, s.length()] (embedded NUL bytes), std::string::copy() "
+           "carries a write obligation.",
+    "C06": "Observers of an adapter never hand the destination on as an rvalue.",
+    "C08": "Only the handler's own group-membership flag excuses the cross-check on an add path.",
+    "C11": "Iterator difference of the four iterator classes equals the distance in iteration order (all position "
+           "pairs of lengths 0..4).",
+    "C13": "Constant lookup tables are evaluated.",
+    "C15": "writeCheck() and written() agree on whether the message text matters.",
+    "C20": "The constructor's lambda is analysed for void and value-returning thread functions.",
+}
+for _pid, _t in ROUND15.items():
+    ROUND14[_pid] = (ROUND14.get(_pid, "") + " " + _t).strip()
 for _pid, _t in ROUND14.items():
     CLAIMS[_pid]["text"] = CLAIMS[_pid]["text"].rstrip() + " " + _t
 
